@@ -42,6 +42,19 @@ PLAN = {
         quick=[rapid("prop", "TestProp", 10000)],
         thorough=[rapid("prop", "TestProp", 60000, shards=16), fuzz("fuzz", "FuzzC05", 40)],
     ),
+    "C18": dict(
+        pkg="c18",
+        rule=("strings built from a width-hostile token alphabet (newlines leading/trailing/repeated, CJK wide, full-width, combining, zero-width, emoji ZWJ/flag/skin-tone sequences, "
+              "grapheme extenders), arbitrary bytes and rapid's full-Unicode strings; each also stored in a cell as a plain string, Stringer, pointer-receiver Stringer, error, GoStringer, %v-formatted bytes or nested cell, "
+              "and rendered once as a 1x1 text table so that the renderer's stored per-line widths can be compared with the metrics. Oracle: algebraic relations between Lines/LongestLine*/String* and Cell.Height/Lines/TerminalCellWidth. "
+              "Non-trivial: the string is empty, has a leading/trailing/repeated newline, or contains a non-ASCII byte. Distinct: FNV-64 of (string, wrapping)."),
+        level_text=("Generated-input search over strings with metamorphic/algebraic oracles (split/join, max-of-per-line, rune/byte/cell inequalities, cell height/width versus line metrics, "
+                    "renderer per-line widths versus the metric), plus native byte-level fuzzing of the same oracle. Exploration level."),
+        level_note="Trusts go-runewidth as 'the library's own cell-width measure' (the property is relative to it) and utf8.RuneCountInString/len as the rune and byte measures.",
+        technique="property-based testing (rapid) with algebraic/metamorphic relations + native Go fuzzing over bytes",
+        quick=[rapid("prop", "TestProp", 50000)],
+        thorough=[rapid("prop", "TestProp", 300000, shards=16), fuzz("fuzz", "FuzzC18", 40)],
+    ),
 }
 
 # properties deliberately not claimed, with the reason (empty: the technique applies to all 19)
